@@ -309,11 +309,19 @@ def checkCase (j : Json) : Except String Verdict := do
     -- C19 (auth half)
     if inService && endpoint == "sign_out" && method == "POST" then
       match cookie with
-      | .opens _ =>
+      | .opens ps =>
         let gatesOK := match route with | some rt => (firstFail c 0 r rt.gates).isNone | none => false
         if gatesOK then
           let nrev := (idpKinds.filter (· == "revoke")).length
           if nrev != 1 then v := v.mon "C19" "revoke_called_exactly_once" idx s!"{nrev}"
+          -- what is revoked ends the *grant*: Google is handed the session's access token (which revokes the grant), Okta the
+          -- refresh token with its type hint (revoking an Okta access token leaves the refresh token alive)
+          for cl in ((jarr out "idpCalls").toOption.getD #[]) do
+            if strD cl "kind" == "revoke" then
+              if slug == "okta" && (strD cl "rawToken" != ps.refreshTok || strD cl "hint" != "refresh_token") then
+                v := v.mon "C19" "revocation_ends_the_grant" idx s!"okta: token={strD cl "rawToken"} hint={strD cl "hint"}"
+              if slug == "google" && strD cl "token" != ps.access then
+                v := v.mon "C19" "revocation_ends_the_grant" idx s!"google: token={strD cl "token"}"
           let revokeOK := match strD (getJ inp "idpRevoke") "kind" with
             | "ok" => true
             | "status" => perrOf slug (getJ inp "idpRevoke") == .tokenRevoked
